@@ -1,6 +1,351 @@
 package props
 
-import "verif/harness/internal/mon"
+import (
+	"bytes"
+	"fmt"
 
-// c03fonts: stratum over complete fonts (filled in once the font generator exists)
-func c03fonts(c *mon.Ctx) {}
+	"seehuhn.de/go/sfnt"
+	"seehuhn.de/go/sfnt/cff"
+	"seehuhn.de/go/sfnt/glyf"
+	"seehuhn.de/go/sfnt/header"
+
+	"verif/harness/internal/gen/fontgen"
+	"verif/harness/internal/mon"
+	"verif/harness/internal/ref/glyfref"
+	"verif/harness/internal/ref/sfntwalk"
+	"verif/harness/internal/ref/ximg"
+)
+
+// ttExpected computes the outline segments of TrueType glyph gid (composites
+// through their XY offsets).  ok=false when the glyph uses something the
+// comparison does not cover (transforms, point-matching, degenerate contours).
+func ttExpected(o *glyf.Outlines, gid int, dx, dy int, depth int) (segs []ximg.Seg, ok bool) {
+	if depth > 6 {
+		return nil, false
+	}
+	g := o.Glyphs[gid]
+	if g == nil {
+		return nil, true
+	}
+	switch d := g.Data.(type) {
+	case glyf.SimpleGlyph:
+		ref, _, err := glyfref.Decode(int(d.NumContours), d.Encoded)
+		if err != nil || ximg.Degenerate(ref.Contours) {
+			return nil, false
+		}
+		for _, c := range ref.Contours {
+			on := false
+			for _, p := range c {
+				on = on || p.OnCurve
+			}
+			if !on && len(c) < 2 {
+				return nil, false
+			}
+		}
+		return ximg.TTSegments(ref.Contours, dx, dy), true
+	case glyf.CompositeGlyph:
+		for _, c := range d.Components {
+			if c.Flags&glyf.FlagArgsAreXYValues == 0 || c.Flags&(glyf.FlagWeHaveAScale|glyf.FlagWeHaveAnXAndYScale|glyf.FlagWeHaveATwoByTwo) != 0 {
+				return nil, false
+			}
+			var cx, cy int
+			if c.Flags&glyf.FlagArg1And2AreWords != 0 {
+				cx = int(int16(uint16(c.Data[0])<<8 | uint16(c.Data[1])))
+				cy = int(int16(uint16(c.Data[2])<<8 | uint16(c.Data[3])))
+			} else {
+				cx, cy = int(int8(c.Data[0])), int(int8(c.Data[1]))
+			}
+			sub, ok := ttExpected(o, int(c.GlyphIndex), dx+cx, dy+cy, depth+1)
+			if !ok {
+				return nil, false
+			}
+			segs = append(segs, sub...)
+		}
+		return segs, true
+	}
+	return nil, false
+}
+
+// cffExpected converts a CFF glyph with integer coordinates to segments:
+// every subpath is closed with a line back to its start when needed.
+func cffExpected(g *cff.Glyph) (segs []ximg.Seg, ok bool) {
+	q := func(v float64) (int64, bool) {
+		i := int64(v)
+		return i * 64, float64(i) == v
+	}
+	var sx, sy, cx, cy int64
+	open := false
+	closeSub := func() {
+		if open && (cx != sx || cy != sy) {
+			segs = append(segs, ximg.Seg{Op: 'L', X: [3]int64{sx}, Y: [3]int64{sy}})
+		}
+		open = false
+	}
+	for _, c := range g.Cmds {
+		switch c.Op {
+		case cff.OpMoveTo:
+			closeSub()
+			x, ok1 := q(c.Args[0])
+			y, ok2 := q(c.Args[1])
+			if !ok1 || !ok2 {
+				return nil, false
+			}
+			segs = append(segs, ximg.Seg{Op: 'M', X: [3]int64{x}, Y: [3]int64{y}})
+			sx, sy, cx, cy = x, y, x, y
+			open = true
+		case cff.OpLineTo:
+			x, ok1 := q(c.Args[0])
+			y, ok2 := q(c.Args[1])
+			if !ok1 || !ok2 {
+				return nil, false
+			}
+			segs = append(segs, ximg.Seg{Op: 'L', X: [3]int64{x}, Y: [3]int64{y}})
+			cx, cy = x, y
+		case cff.OpCurveTo:
+			var s ximg.Seg
+			s.Op = 'C'
+			for i := 0; i < 3; i++ {
+				x, ok1 := q(c.Args[2*i])
+				y, ok2 := q(c.Args[2*i+1])
+				if !ok1 || !ok2 {
+					return nil, false
+				}
+				s.X[i], s.Y[i] = x, y
+			}
+			segs = append(segs, s)
+			cx, cy = s.X[2], s.Y[2]
+		default:
+			return nil, false
+		}
+	}
+	closeSub()
+	return segs, true
+}
+
+// ximageCompare compares what x/image sees in the written file with the font.
+func ximageCompare(k *mon.Case, f *sfnt.Font, info *fontgen.Info, out []byte, desc string) {
+	if f.CMapTable == nil {
+		k.Skip("ximage:font-without-cmap-is-not-complete")
+		return
+	}
+	xf, err := ximg.Parse(out)
+	if err != nil {
+		k.Fail("mismatch", "ximage:parse", "x/image rejects the written file: %v (%s)", err, desc)
+		return
+	}
+	k.Eval()
+	if xf.NumGlyphs() != f.NumGlyphs() {
+		k.Fail("mismatch", "ximage:num-glyphs", "x/image sees %d glyphs, font has %d (%s)", xf.NumGlyphs(), f.NumGlyphs(), desc)
+		return
+	}
+	if xf.Upm != int(f.UnitsPerEm) {
+		k.Fail("mismatch", "ximage:units-per-em", "x/image sees %d units per em, font has %d (%s)", xf.Upm, f.UnitsPerEm, desc)
+	}
+	// character mapping
+	if f.CMapTable != nil && info.CMap != "legacy" {
+		sub, err := f.CMapTable.GetBest()
+		if err == nil {
+			check := func(r rune) {
+				gi, err := xf.GlyphIndex(r)
+				if err != nil {
+					k.Skip("ximage:glyphindex-error")
+					return
+				}
+				k.Eval()
+				want := int(info.CodeToGID[r])
+				if lib := int(sub.Lookup(r)); lib != want {
+					k.Fail("mismatch", "cmap:library-lookup", "library maps U+%04X to %d, generated map says %d (%s)", r, lib, want, desc)
+				}
+				if gi != want {
+					k.Fail("mismatch", "ximage:glyph-index", "x/image maps U+%04X to glyph %d, font maps it to %d (%s)", r, gi, want, desc)
+				}
+			}
+			n := 0
+			for r := range info.CodeToGID {
+				if (info.CMap == "both" || info.CMap == "12") || r <= 0xffff {
+					check(r)
+				}
+				if n++; n > 300 {
+					break
+				}
+			}
+			for _, r := range []rune{0, 1, 0x20, 0x7f, 0xfffe, 0x1f600} {
+				if _, mapped := info.CodeToGID[r]; !mapped {
+					check(r)
+				}
+			}
+			k.Class("ximage:cmap-compared")
+		}
+	}
+	// advances, names, outlines
+	ng := f.NumGlyphs()
+	step := 1
+	if ng > 400 {
+		step = ng / 200
+	}
+	for gid := 0; gid < ng; gid += step {
+		// x/image scales in 32-bit 26.6 arithmetic: stay inside its range
+		fits := func(v float64) bool { return v*float64(f.UnitsPerEm)*64 < 1<<30 && v*float64(f.UnitsPerEm)*64 > -(1 << 30) }
+		bb := f.GlyphBBox(glyphID(gid))
+		boxFits := fits(float64(bb.LLx)) && fits(float64(bb.LLy)) && fits(float64(bb.URx)) && fits(float64(bb.URy))
+		adv, err := xf.Advance(gid)
+		if !fits(f.GlyphWidth(glyphID(gid))) {
+			k.Skip("ximage:advance-exceeds-26.6-range")
+		} else if err == nil {
+			k.Eval()
+			if float64(adv) != f.GlyphWidth(glyphID(gid)) {
+				k.Fail("mismatch", "ximage:advance", "x/image advance of glyph %d is %d, font says %v (%s)", gid, adv, f.GlyphWidth(glyphID(gid)), desc)
+				return
+			}
+		}
+		switch o := f.Outlines.(type) {
+		case *glyf.Outlines:
+			if o.Names != nil {
+				name, err := xf.GlyphName(gid)
+				if err == nil {
+					k.Eval()
+					if name != o.Names[gid] {
+						k.Fail("mismatch", "ximage:glyph-name", "x/image name of glyph %d is %q, font says %q (%s)", gid, name, o.Names[gid], desc)
+						return
+					}
+					k.Class("ximage:name-compared")
+				}
+			}
+			want, ok := ttExpected(o, gid, 0, 0, 0)
+			if !boxFits {
+				k.Skip("ximage:outline-exceeds-26.6-range")
+				continue
+			}
+			if !ok {
+				k.Skip("ximage:outline-not-comparable")
+				continue
+			}
+			got, err := xf.Outline(gid)
+			if err != nil {
+				k.Skip("ximage:outline-unsupported")
+				continue
+			}
+			k.Eval()
+			if !ximg.SameSegs(got, want) {
+				k.Fail("mismatch", "ximage:outline-truetype", "x/image outline of glyph %d differs (%s)\n got %v\nwant %v", gid, desc, got, want)
+				return
+			}
+			if o.Glyphs[gid] == nil {
+				k.Class("ximage:empty-outline-compared")
+			} else if _, isC := o.Glyphs[gid].Data.(glyf.CompositeGlyph); isC {
+				k.Class("ximage:composite-outline-compared")
+			} else {
+				k.Class("ximage:simple-outline-compared")
+			}
+		case *cff.Outlines:
+			want, ok := cffExpected(o.Glyphs[gid])
+			if !boxFits {
+				k.Skip("ximage:outline-exceeds-26.6-range")
+				continue
+			}
+			if !ok {
+				k.Skip("ximage:cff-fractional-coordinates")
+				continue
+			}
+			got, err := xf.Outline(gid)
+			if err != nil {
+				k.Skip("ximage:outline-unsupported")
+				continue
+			}
+			k.Eval()
+			if !ximg.SameSegs(got, want) {
+				k.Fail("mismatch", "ximage:outline-cff", "x/image outline of glyph %d differs (%s)\n got %v\nwant %v", gid, desc, got, want)
+				return
+			}
+			k.Class("ximage:cff-outline-compared")
+		}
+	}
+}
+
+// c03fonts: stratum over complete fonts: every writer output is a well-formed
+// container, and x/image agrees with the font on the complete files.
+func c03fonts(c *mon.Ctx) {
+	c.Stratum("fonts", c.N(1500, 20000), func(k *mon.Case) {
+		r := k.Rng
+		o := fontgen.Opts{Kind: []string{"glyf", "cff", "cid"}[k.Index%3], IntCoords: r.IntN(3) != 0}
+		switch k.Index / 3 % 6 {
+		case 0:
+			o.MaxGlyphs = 3
+		case 1:
+			o.MinGlyphs, o.MaxGlyphs = 255, 257
+		case 2:
+			if c.Thorough() {
+				o.MinGlyphs, o.MaxGlyphs = 900, 1100
+			}
+		}
+		if r.IntN(2) == 0 {
+			o.Layout = "subset"
+		}
+		f, info := fontgen.Font(r, o)
+		if f.CreationTime.IsZero() && f.ModificationTime.IsZero() {
+			f.ModificationTime = f.ModificationTime.AddDate(2001, 0, 0)
+		}
+		desc := fmt.Sprintf("kind=%s glyphs=%d cmap=%s", info.Kind, info.NGlyphs, info.CMap)
+		out, ok := writeFont(k, f, "Write(F)")
+		if !ok {
+			return
+		}
+		k.DistinctBytes(out)
+		wf, probs := sfntwalk.Walk(out)
+		k.Eval()
+		for _, p := range probs {
+			k.Fail("mismatch", "container:"+p.Rule, "Write output: %s (%s)", p, desc)
+		}
+		if wf != nil {
+			// header.Read sees exactly the tables of the file
+			info2, err := header.Read(bytes.NewReader(out))
+			if err != nil || len(info2.Toc) != len(wf.Tables) {
+				k.Fail("mismatch", "readback:table-set", "header.Read on Write output: err=%v", err)
+			}
+		}
+		k.Class("writer:Write:" + info.Kind)
+		ximageCompare(k, f, info, out, desc)
+
+		// the PDF writers
+		buf := &bytes.Buffer{}
+		switch info.Kind {
+		case "glyf":
+			var n int64
+			var err error
+			if k.Guard("WriteTrueTypePDF", func() { n, err = f.WriteTrueTypePDF(buf) }) {
+				return
+			}
+			k.Eval()
+			if err != nil || n != int64(buf.Len()) {
+				k.Fail("mismatch", "pdf-writer", "WriteTrueTypePDF: n=%d len=%d err=%v", n, buf.Len(), err)
+				return
+			}
+			k.Class("writer:WriteTrueTypePDF")
+		default:
+			var err error
+			if k.Guard("WriteOpenTypeCFFPDF", func() { err = f.WriteOpenTypeCFFPDF(buf) }) {
+				return
+			}
+			k.Eval()
+			if err != nil {
+				k.Fail("mismatch", "pdf-writer", "WriteOpenTypeCFFPDF: %v", err)
+				return
+			}
+			k.Class("writer:WriteOpenTypeCFFPDF")
+		}
+		pf, probs := sfntwalk.Walk(buf.Bytes())
+		for _, p := range probs {
+			k.Fail("mismatch", "container:"+p.Rule, "PDF writer output: %s (%s)", p, desc)
+		}
+		if pf != nil {
+			if _, err := header.Read(bytes.NewReader(buf.Bytes())); err != nil {
+				k.Fail("mismatch", "header.Read-rejects-own-output", "header.Read on PDF writer output: %v (%s)", err, desc)
+			}
+		}
+		if k.Index < 3 {
+			k.Sample(desc + fmt.Sprintf(" file=%d bytes", len(out)))
+		}
+	})
+	c.Require("writer:Write:glyf", "writer:Write:cff", "writer:Write:cid", "writer:WriteTrueTypePDF", "writer:WriteOpenTypeCFFPDF",
+		"ximage:cmap-compared", "ximage:simple-outline-compared", "ximage:composite-outline-compared", "ximage:cff-outline-compared", "ximage:name-compared")
+}
